@@ -1,6 +1,7 @@
 """Verification units: one function (or lemma) under contract + the driver that enumerates paths."""
 from __future__ import annotations
 
+import os
 import time
 import traceback
 import types
@@ -165,6 +166,10 @@ class Unit:
 
     def loop_spec(self, qualname, ordinal):
         return None
+
+    def abstract_stmt(self, ip, stmt, env, f):
+        """a unit may replace a statement by a stated abstraction (returns True when it did); default: never"""
+        return False
 
     def loop_spec_by_shape(self, node, f):
         """fallback for loops without a registered invariant: a unit may recognise the *shape* of a loop (e.g. `for x in
@@ -590,6 +595,9 @@ class UnitResult:
         self.seconds = 0.0
 
 
+UNIT_BUDGET_S = int(os.environ.get("SEGVC_UNIT_BUDGET_S", "900"))
+
+
 def explore(unit, max_paths=4000, prefix=(), split=()):
     """enumerate the paths of a unit depth-first by re-execution.  `prefix` fixes the first decisions (used to spread
     the paths of a heavy unit over several processes: every combination of first decisions is explored by exactly one
@@ -637,6 +645,8 @@ def explore(unit, max_paths=4000, prefix=(), split=()):
             decisions = d[:i] + [d[i] + 1]
             if res.paths >= max_paths:
                 raise Unsupported(f"more than {max_paths} paths")
+            if time.time() - t0 > UNIT_BUDGET_S:
+                raise Unsupported(f"path exploration of this unit exceeded its wall-clock budget of {UNIT_BUDGET_S} s after {res.paths} paths (undecided, not a verdict)")
     except Unsupported as e:
         res.status = "undecided"
         res.message = f"unsupported: {e}"
